@@ -55,6 +55,11 @@ macro_rules! impl_parse {
                     }
 
                     $input.parse::<syn::Token![,]>()?;
+
+                    // a trailing comma is fine
+                    if $input.is_empty() {
+                        break;
+                    }
                 }
 
                 Ok($out)
@@ -105,6 +110,11 @@ macro_rules! impl_parse {
                     }
 
                     $input.parse::<syn::Token![,]>()?;
+
+                    // a trailing comma is fine
+                    if $input.is_empty() {
+                        break;
+                    }
                 }
 
                 Ok($out)
